@@ -265,7 +265,8 @@ def run(ck):
                     seen_line.add(line)
                     for kws in ([], ["amd64"], ["arm64", "~x86"]):
                         add(real.ev_withkw(len(events), line, kws), ("withkw", line, tuple(kws)), bool(line.split("#")[0].strip()))
-    ck.sample(describe(next(e for e in events if e["ev"] == "expand" and 42 in e["text"] and 13 in e["text"])))
+    exps = [e for e in events if e["ev"] == "expand"]  # evidence samples only: never a reason to fail
+    ck.sample(describe(next((e for e in exps if 42 in e["text"] and 13 in e["text"]), exps[0])))
     step = 4000
     for k in range(0, len(events), step):
         judge(ck, events[k:k + step], f"Trace:spec-chosen-{k // step}")
@@ -290,6 +291,7 @@ def run(ck):
             ents = [(r.choice(["=dev-libs/foo-1.2.3", "app-misc/bar", ">=sys-apps/baz-4:2", "~x11-libs/q+t-5.15", "<dev-lang/c++-11.2"]),
                      r.choice([[], ["amd64"], ["~x86", "*"], ["^"], ["-"]])) for _ in range(r.randint(0, 4))]
             add(real.ev_build(len(events), ents), ("build", repr(ents)), bool(ents))
-    ck.sample(describe(next(e for e in events if e["ev"] == "expand" and not e["refused"] and e["out"] != e["text"])))
+    exps = [e for e in events if e["ev"] == "expand"]
+    ck.sample(describe(next((e for e in exps if not e["refused"] and e["out"] != e["text"]), exps[0])))
     for k in range(0, len(events), step):
         judge(ck, events[k:k + step], f"Trace:random-{k // step}")
